@@ -21,11 +21,14 @@ EXPLANATION = (
 DECLINED = ["round semantics over arbitrary histories", "behaviour of pthread_barrier_wait itself"]
 ASSUMPTIONS = ["C05.R4 (broadcast wakes every queued waiter) and C04.R3 (enqueue contract)"]
 RULES_DOC = dict(common.SHARED_DOC)
+RULES_DOC["X7"] = common.X7_DOC
 RULES_DOC["X4"] = common.X4_DOC
 RULES_DOC["X5"] = common.X5_DOC
 RULES_DOC["R4"] = "= C06.R2: a waiter released by the last arriver is pushed before it stops being counted as blocked (it is never stranded in a pool whose stream has terminated)"
 RULES_DOC["X6"] = common.X6_DOC
 RULES_DOC["R5"] = "= C06.R1/R3/R4: a waiter that blocks in the barrier is counted on the pool it will be resumed on"
+RULES_DOC["R7"] = "= C06.R5: a scheduler does not stop while a unit of one of its pools is blocked (for every shared access mode): the stream a barrier waiter will be pushed back to is still consuming the pool when the last arriver releases it"
+RULES_DOC["R8"] = "= C06.R9: pool reference counts are exact (ABTI_sched_has_unit trusts num_scheds == 1 before it looks at num_blocked)"
 RULES_DOC["R6"] = "= C17.R10: an OS thread that gave up its stream (ABT_finalize) is an external thread afterwards -- the barrier picks the external-waiter path from the thread-local stream pointer"
 RULES_DOC.update({
     "R1": "barrier_wait: counter ++/compare/reset inside the lock; non-last arm enqueues with the barrier's list+lock; last arm broadcasts and resets before release",
@@ -230,6 +233,7 @@ def rule_R3(P, rep):
 
 
 def run(P, rep, tier):
+    common.rule_X7(P, rep, records=('ABTI_barrier', 'ABTI_xstream_barrier'))
     common.rule_X6(P, rep)
     common.rule_widths(P, rep, [('ABTI_barrier', 'counter'), ('ABTI_barrier', 'num_waiters'), ('ABTI_xstream_barrier', 'counter'), ('ABTI_xstream_barrier', 'tag'), ('ABTI_xstream_barrier', 'num_waiters')])
     common.rule_X4(P, rep)
@@ -241,3 +245,6 @@ def run(P, rep, tier):
     common.borrow(rep, P, C06.rule_R1_R3_R4, "R5")
     from . import C17
     common.borrow(rep, P, C17.rule_R10, "R6")
+    common.borrow(rep, P, C06.rule_R5, "R7")
+    from . import c06_refs
+    common.borrow(rep, P, c06_refs.rule_R9, "R8")
